@@ -1,6 +1,8 @@
 package node
 
 import (
+	"strings"
+
 	"github.com/freeconf/yang/meta"
 	"github.com/freeconf/yang/parser"
 	"github.com/freeconf/yang/val"
@@ -502,6 +504,80 @@ func H_C08_up_from_entry(s any) {
 			v, gerr := sel.Get()
 			vpAssertK("C08-up-from-entry", true, gerr == nil && v != nil, "and the leaf found there can be read")
 		}
+	}
+	vpCover("reached")
+}
+
+// C07: parameters that silently bring other limits along, and depth in a schema that nests itself
+func H_C07_depth_side_effects() {
+	kind := vpChoose(3)
+	id := []string{"content-brings-depth-64", "depth-in-recursive-schema", "depth-in-recursive-schema"}[kind]
+	switch kind {
+	case 0:
+		depth := 70
+		var sb strings.Builder
+		sb.WriteString("module m { namespace \"urn:m\"; prefix m; ")
+		for i := 0; i < depth; i++ {
+			sb.WriteString("container c { leaf v { type string; } ")
+		}
+		for i := 0; i < depth; i++ {
+			sb.WriteString("} ")
+		}
+		sb.WriteString("}")
+		m, err := parser.LoadModuleFromString(nil, sb.String())
+		vpAssert(err == nil, "module loads")
+		st := newMemStore()
+		st.quiet = true
+		t := st.root
+		for i := 0; i < depth; i++ {
+			t = t.ensureKid(st, "c")
+			t.leaves["v"] = val.String("x")
+		}
+		count := func(q string) int {
+			sel, ferr := NewBrowser(m, st.node()).Root().Find(q)
+			if ferr != nil || sel == nil {
+				return -1
+			}
+			out := newMemStore()
+			out.quiet = true
+			if sel.UpsertInto(out.node()) != nil {
+				return -1
+			}
+			n := 0
+			for w := out.root.kids["c"]; w != nil; w = w.kids["c"] {
+				if w.leaves["v"] != nil {
+					n++
+				}
+			}
+			return n
+		}
+		vpAssert(count("") == depth, "the unconstrained read returns every level")
+		vpAssertK("C07-h2-"+id, true, count("?content=config") == depth, "content=config on an all-config tree returns the same document (no other limit comes with it)")
+	default:
+		m, err := parser.LoadModuleFromString(nil, `module m { namespace "urn:m"; prefix m; grouping g { leaf v { type string; } container kid { uses g; } } container top { uses g; } }`)
+		vpAssert(err == nil, "module loads")
+		st := newMemStore()
+		st.quiet = true
+		t := st.root.ensureKid(st, "top")
+		for i := 0; i < 4; i++ {
+			t.leaves["v"] = val.String(string(rune('0' + i)))
+			t = t.ensureKid(st, "kid")
+		}
+		t.leaves["v"] = val.String("4")
+		q, wantLevels := "top/kid?depth=1", 1
+		if kind == 2 {
+			q, wantLevels = "top?depth=2", 2
+		}
+		sel, ferr := NewBrowser(m, st.node()).Root().Find(q)
+		vpAssert(ferr == nil && sel != nil, "found")
+		out := newMemStore()
+		out.quiet = true
+		vpAssert(sel.UpsertInto(out.node()) == nil, "read succeeds")
+		levels := 0
+		for w := out.root; w != nil && w.leaves["v"] != nil; w = w.kids["kid"] {
+			levels++
+		}
+		vpAssertK("C07-h2-"+id, true, levels == wantLevels, q+" stops at its depth although the schema nests itself")
 	}
 	vpCover("reached")
 }
